@@ -15,6 +15,15 @@ DUNDERS_2 = ('__eq__', '__ne__', '__lt__', '__le__', '__gt__', '__ge__', '__cont
              '__mod__', '__pow__', '__radd__', '__rsub__', '__rmul__', '__rxor__', '__rand__', '__ror__', '__rlshift__', '__rrshift__', '__rmod__', '__rpow__', '__floordiv__', '__truediv__')
 
 
+def operator_model():
+    op_mod = Obj('operator')
+    for nm_, f_ in (('add', lambda a, b: a + b), ('sub', lambda a, b: a - b), ('mul', lambda a, b: a * b), ('xor', lambda a, b: a ^ b), ('and_', lambda a, b: a & b),
+                    ('or_', lambda a, b: a | b), ('rshift', lambda a, b: a >> b), ('lshift', lambda a, b: a << b), ('neg', lambda a: -a), ('eq', lambda a, b: a == b), ('ne', lambda a, b: a != b),
+                    ('lt', lambda a, b: a < b), ('le', lambda a, b: a <= b), ('gt', lambda a, b: a > b), ('ge', lambda a, b: a >= b), ('mod', lambda a, b: a % b), ('invert', lambda a: ~a)):
+        setattr(op_mod, nm_, Native(f_))
+    return op_mod
+
+
 class SrcObj(Obj):
     """Instance of an interpreted class."""
     _world = None
@@ -47,6 +56,8 @@ class ClassWorld(object):
         self.ev = Evaluator(env)
         self.classes = {}
         self.wanted = wanted
+        self.unevaluated = {}          # module-level names whose value the evaluator could not compute
+        env.setdefault('operator', operator_model())
         # module-level statements in source order (descending into try / if bodies): tables, functions, classes
         for st in mod.toplevel():
             if isinstance(st, ast.FunctionDef):
@@ -56,8 +67,8 @@ class ClassWorld(object):
             elif isinstance(st, ast.Assign) and len(st.targets) == 1 and isinstance(st.targets[0], ast.Name) and st.targets[0].id not in env:
                 try:
                     env[st.targets[0].id] = self.ev.ev(st.value)
-                except NotConst:
-                    pass
+                except NotConst as e:
+                    self.unevaluated[st.targets[0].id] = str(e)
 
     # ------------------------------------------------------------------ classes
     def _build_class(self, cdef):
@@ -154,6 +165,8 @@ class ClassWorld(object):
             if 'does not terminate within the evaluation bound' in msg:
                 return 'loops', msg
             if msg.startswith('name '):
+                if msg[5:] in self.unevaluated:
+                    raise AnalysisError('%s: the module-level value of %s is outside the evaluable subset (%s)' % (self.mod.name, msg[5:], self.unevaluated[msg[5:]]))
                 return 'raises', 'NameError(%s)' % msg[5:]
             raise AnalysisError('expression.py: %s is outside the evaluable subset: %s' % (f if not isinstance(f, tuple) else '%s.%s' % (type(f[0])._cname, f[1]), msg))
         except (TypeError, ValueError, KeyError, IndexError, AttributeError, ZeroDivisionError) as ex:
